@@ -258,6 +258,8 @@ def alg_obj(a):
         return Exact()
     if a[0] == "auto":
         return None            # the default argument
+    if a[0] == "autoexp":
+        return Auto()          # the default written out
     return Auto(tol=a[1] / a[2])
 
 
@@ -298,7 +300,7 @@ def run_tree(t, dqs, tqs):
 def coq_alg(a):
     if a[0] == "exact":
         return "AExact"
-    if a[0] == "auto":
+    if a[0] in ("auto", "autoexp"):
         return "default_auto"
     return f"(AAuto {a[1]} {a[2]})"
 
@@ -311,12 +313,39 @@ def coq_dobs(o, loose=False):
     return "DOther"
 
 
-def coq_tobs(o):
+def coq_tobs(o, loose=False):
     if o["cls"] == "err":
-        return f"(TErr {o['err']})"
+        return f"({'TErrT' if loose else 'TErr'} {o['err']})"
     if o["cls"] == "val":
-        return f"(TVal {T.zc(o['val'])})"
+        return f"({'TValT' if loose else 'TVal'} {T.zc(o['val'])})"
     return "TOther"
+
+
+def straddle(n):
+    """two tolerances tp/10^6 around Auto's switch tol < 1/sqrt(10*n*n): (largest below, smallest not below)"""
+    import math
+    t = math.isqrt(10 ** 12 // (10 * n * n))
+    while (t + 1) ** 2 * 10 * n * n < 10 ** 12:
+        t += 1
+    while t ** 2 * 10 * n * n >= 10 ** 12:
+        t -= 1
+    return ("tol", t, 10 ** 6), ("tol", t + 1, 10 ** 6)
+
+
+def outcome_class(o, want):
+    """0 the exact value, 1 ValueError, 2 stochastic (non-integral) estimate, 3 AssertionError, 9 anything else (wrong integers, ...)"""
+    if o["cls"] == "err":
+        return dict(DValue=1, DStoch=2, DAssert=3).get(o["err"], 9)
+    if o["cls"] == "vec":
+        w = np.asarray(want).reshape(-1)
+        return 0 if len(o["val"]) == len(w) and all(complex(*a) == complex(b) for a, b in zip(o["val"], w)) else 9
+    if o["cls"] == "val":
+        return 0 if complex(*o["val"]) == complex(want) else 9
+    return 9
+
+
+def coq_acase(n, fx, qs):
+    return "{| an := " + f"{n}; afx := {coq_bool(fx)}; aqs := [" + ";".join(f"(({k})%Z, {coq_alg(a)}, {c}%nat)" for k, a, c in qs) + "] |}"
 
 
 def coq_bool(x):
@@ -325,7 +354,7 @@ def coq_bool(x):
 
 def coq_tcase(t, n, dqs, dobs, tqs, tobs, df):
     dq = ";".join(f"(({k})%Z, {coq_alg(a)}, {coq_dobs(o, a[0] == 'tol')})" for (k, a), o in zip(dqs, dobs))
-    tq = ";".join(f"({coq_alg(a)}, {coq_tobs(o)})" for a, o in zip(tqs, tobs))
+    tq = ";".join(f"({coq_alg(a)}, {coq_tobs(o, a[0] == 'tol')})" for a, o in zip(tqs, tobs))
     dfl = f"(mkdflags {coq_bool(df['ragged_fixed'])} {coq_bool(df['kron_refuse'])} {coq_bool(df['bd_refuse'])})"
     return "{| te := " + T.coq(t) + f"; tn := {n}; tdf := {dfl}; tdq := [{dq}]; ttq := [{tq}] |}}"
 
